@@ -255,7 +255,7 @@ def run_one(e):
         if isbox(v):
             return {"box": True, "repr": str(type(v))}, top_before
         fv = float(v)
-        if abs(fv) >= 2 ** 50 or fv != int(fv):
+        if fv != fv or abs(fv) >= 2 ** 50 or fv != int(fv):   # (NaN: an intermediate value overflowed, inf - inf)
             return {"inexact": True}, top_before
         return {"val": int(fv)}, top_before
     except OverflowError:
@@ -275,7 +275,7 @@ def as_int(v):
     if isbox(v):
         return "box"
     fv = float(v)
-    if abs(fv) >= 2 ** 50 or fv != int(fv):
+    if fv != fv or abs(fv) >= 2 ** 50 or fv != int(fv):
         return "inexact"
     return int(fv)
 
